@@ -273,6 +273,29 @@ let () =
     | [s] -> show_res hex_of_bytes (decrypt_pkg (fun x -> x) (bytes_of_hex s))
     | _ -> "bad-args")
 
+(* ---- C10 numeric rendering ---- *)
+let parse_ntok (t : string) : ntok =
+  let n = String.length t in
+  match t.[0] with
+  | 'Z' -> NZero (z_of_string (String.sub t 1 (n - 1)))
+  | 'H' -> NHash (z_of_string (String.sub t 1 (n - 1)))
+  | 'P' -> NPoint
+  | 'C' -> NComma
+  | '%' -> NPct (z_of_string (String.sub t 1 (n - 1)))
+  | 'L' -> NLit (bytes_of_hex (String.sub t 1 (n - 1)))
+  | _ -> failwith ("bad ntok " ^ t)
+
+let () =
+  reg "c10.render" (fun a -> match a with
+    | sign :: nn :: m :: toks ->
+      (* sections separated by "/" *)
+      let rec split cur acc = function
+        | [] -> List.rev (List.rev cur :: acc)
+        | "/" :: tl -> split [] (List.rev cur :: acc) tl
+        | x :: tl -> split (parse_ntok x :: cur) acc tl in
+      hex_of_bytes (render (split [] [] toks) (z_of_string sign) (z_of_string nn) (z_of_string m))
+    | _ -> "bad-args")
+
 (* ---- C12 part locations and temp files ---- *)
 let () =
   reg "c12.run" (fun a ->
